@@ -186,6 +186,7 @@ class Face(ElementBase):
         indexes = list(range(4))
         indexes.sort(key=lambda i: f.norm(position - self.points[i].position))
 
-        self.shift(indexes[0])
+        # shift() rotates to the right, so the closest point comes first when shifted by -index
+        self.shift(-indexes[0])
 
         return self
